@@ -292,6 +292,8 @@ class Arm(Robot):
                     i = i + 1
                 if success:
                     self._end_effector_pos_global = goal_position
+        theta = fsr.angleMod(theta)
+        self.FK(theta, protect=bool(success))
         return theta, success
 
     def constrainedIK(self, goal_position : tm, theta_init : 'np.ndarray[float]' = None,
